@@ -1,4 +1,812 @@
-//! C18 monitor (not written yet).
-use crate::ctx::Ctx;
+//! C18 — the generated Rust binding defines types with the same Candid meaning.
+//!
+//! For every type-checked program `bindings::rust::emit_bindgen` is run (A) on the program as it is and
+//! (B) with a synthetic main service `vrf_m_<i> : (Def_i) -> (Def_i)` for every definition, so the
+//! generator itself says which Rust type it uses for which source definition. The emitted type
+//! definitions go into a generated crate (rsbind/gen_<worker>/src/m_<k>.rs, template in rsbind/template)
+//! which is compiled with cargo; at run time the crate prints, for every definition and every method
+//! argument/result, the Candid type the derive macro computes (`T::ty()`, as a type graph). Oracle:
+//! the module compiles; every printed graph is structurally equal (R3 `requal2`) to the model type of the
+//! source item; emitted item names are pairwise distinct and field / variant names are distinct within
+//! their struct / enum (checked with `syn` before compiling).
+//! Only one worker may run the cargo pipeline at a time (props: max_workers = 1).
+use super::c17::bind_js::*;
+use super::c17::bind_prog::*;
+use super::c17::bind_rs::*;
+use crate::ctx::{catch, Ctx};
+use crate::model::subtype::requal2;
+use crate::model::*;
+use crate::rng::hash_str;
+use candid::types::{Function, Type, TypeInner};
+use candid_parser::bindings::rust;
+use serde_json::json;
+use std::collections::{BTreeMap, BTreeSet};
+use std::time::Instant;
 
-pub fn run(_ctx: &mut Ctx) {}
+fn clip(s: &str, n: usize) -> String {
+    if s.len() <= n {
+        s.to_string()
+    } else {
+        let mut k = n;
+        while !s.is_char_boundary(k) {
+            k -= 1;
+        }
+        format!("{}…(+{} bytes)", &s[..k], s.len() - k)
+    }
+}
+
+fn rust_config() -> rust::Config {
+    use std::str::FromStr;
+    rust::Config::new(candid_parser::configs::Configs::from_str("").unwrap())
+}
+
+struct Expect {
+    module: usize,
+    label: String,
+    what: String,
+    expected: RType,
+}
+
+struct Pending {
+    case: u64,
+    pc: ProgramCase,
+    /// module number -> ("A" | "B", emitted type definitions, names explained by the syn check)
+    modules: BTreeMap<usize, (&'static str, String, bool)>,
+    /// module number -> (item label, Rust type expression) to probe
+    items: BTreeMap<usize, Vec<(String, String)>>,
+    /// (module, label) of items already reported as sharing one Rust type with a different source type
+    shared: BTreeSet<(usize, String)>,
+    expects: Vec<Expect>,
+}
+
+fn reachable_defs(pc: &ProgramCase) -> BTreeSet<usize> {
+    fn go(t: &RType, env: &REnv, seen: &mut BTreeSet<usize>) {
+        match t {
+            RType::Ref(i) => {
+                if seen.insert(*i) {
+                    if let Some(b) = env.0.get(*i) {
+                        go(b, env, seen);
+                    }
+                }
+            }
+            RType::Opt(t) | RType::Vec(t) => go(t, env, seen),
+            RType::Record(fs) | RType::Variant(fs) => fs.iter().for_each(|f| go(&f.1, env, seen)),
+            RType::Func { args, rets, .. } => args.iter().chain(rets.iter()).for_each(|t| go(t, env, seen)),
+            RType::Service(ms) => ms.iter().for_each(|m| go(&m.1, env, seen)),
+            _ => {}
+        }
+    }
+    let mut seen = BTreeSet::new();
+    if let Some(s) = &pc.service {
+        go(s, &pc.model_env, &mut seen);
+    }
+    for t in pc.init.iter().flatten() {
+        go(t, &pc.model_env, &mut seen);
+    }
+    seen
+}
+
+/// names the emitted code (the `use` line, the derive expansions, the candid macros) relies on: a definition
+/// that is given one of them breaks the module
+const SHADOWABLE: &[&str] = &[
+    "Box", "Option", "Vec", "String", "Result", "Principal", "CandidType", "Deserialize", "Ok", "Err", "Some", "None", "From",
+    "Into", "Default", "Clone", "Copy", "Send", "Sync", "Sized", "Drop", "Fn", "FnMut", "FnOnce", "Eq", "PartialEq", "Ord",
+    "PartialOrd", "AsRef", "AsMut", "Iterator", "IntoIterator", "Extend", "ToString", "ToOwned", "TryFrom", "TryInto",
+    "FromIterator", "Debug", "Serialize",
+];
+
+fn subterms(pc: &ProgramCase) -> Vec<RType> {
+    fn go(t: &RType, out: &mut Vec<RType>) {
+        out.push(t.clone());
+        match t {
+            RType::Opt(t) | RType::Vec(t) => go(t, out),
+            RType::Record(fs) | RType::Variant(fs) => fs.iter().for_each(|f| go(&f.1, out)),
+            RType::Func { args, rets, .. } => args.iter().chain(rets.iter()).for_each(|t| go(t, out)),
+            RType::Service(ms) => ms.iter().for_each(|m| go(&m.1, out)),
+            _ => {}
+        }
+    }
+    let mut out = Vec::new();
+    for t in &pc.model_env.0 {
+        go(t, &mut out);
+    }
+    if let Some(s) = &pc.service {
+        go(s, &mut out);
+    }
+    for t in pc.init.iter().flatten() {
+        go(t, &mut out);
+    }
+    out.retain(|t| !t.is_prim() && !matches!(t, RType::Ref(_)));
+    out.sort();
+    out.dedup();
+    out
+}
+
+fn needs_rust_escape(m: &str) -> bool {
+    m.chars().any(|c| c == '"' || c == '\\' || c == '\r')
+}
+
+/// Root cause of one difference between the source type and the Candid type of the emitted Rust type,
+/// when the difference is exactly what a known mechanism predicts; otherwise the generic shape class.
+fn classify(pc: &ProgramCase, label: &str, g: &JsGraphs, d: &Diff) -> String {
+    use crate::model::misc::label_hash;
+    // record { X } is emitted as a one-field tuple struct, which the derive macro treats as a newtype (= X)
+    if let Some(RType::Record(fs)) = pc.model_env.unfold(&d.expected) {
+        if fs.len() == 1 && fs[0].0 == 0 {
+            let same_as_field = requal2(&pc.model_env, &fs[0].1, &g.env, &d.observed);
+            // (for recursive types the observed type loses the record layer at every level, so it is not equal
+            // to the field type either: a one-tuple that is observed as something that is no record at all)
+            if same_as_field || d.class == "vacuous-or-dangling" || d.class.starts_with("kind:record-vs-") {
+                return "one-element-tuple-record-becomes-newtype".to_string();
+            }
+        }
+    }
+    // `5 : t` is emitted as field `_5_` without a rename; the derive macro hashes the name `_5_`
+    if !d.missing_ids.is_empty()
+        && d.missing_ids.iter().all(|n| d.extra_ids.contains(&label_hash(&format!("_{n}_"))))
+        && d.extra_ids.len() == d.missing_ids.len()
+    {
+        return "numeric-field-id-becomes-hash-of-_N_".to_string();
+    }
+    if d.class.starts_with("service-") && pc.method_labels.iter().any(|m| needs_rust_escape(m)) {
+        return "define_service-method-name-not-escaped".to_string();
+    }
+    // the Rust item carries the body of another source type: generated names collapsed
+    let composite = g.env.unfold(&d.observed).map(|t| !t.is_prim()).unwrap_or(false);
+    if composite {
+        for t in subterms(pc) {
+            if requal2(&pc.model_env, &t, &g.env, &d.observed) && !crate::model::subtype::requal(&pc.model_env, &t, &d.expected) {
+                return if label.starts_with("init:") {
+                    "distinct-source-types-collapse-into-one-generated-name|init-arguments".to_string()
+                } else {
+                    "distinct-source-types-collapse-into-one-generated-name".to_string()
+                };
+            }
+        }
+    }
+    let kind = if label.starts_with("def:") { "definition" } else { "method-type" };
+    format!("{kind}|{}", d.class)
+}
+
+fn norm(s: &str) -> String {
+    s.chars().filter(|c| *c != '_').collect::<String>().to_lowercase()
+}
+
+/// syn-level checks on one emitted module; returns true when a name collision was reported
+fn cheap_checks(ctx: &mut Ctx, pc: &ProgramCase, which: &str, type_defs: &str) -> bool {
+    let src = format!("use candid::{{self, CandidType, Deserialize, Principal}};\n{type_defs}");
+    let input = || json!({"origin": pc.origin, "did": clip(&pc.text, 6000), "rust": clip(type_defs, 6000), "variant": which});
+    let facts = match analyze_rust(&src) {
+        Ok(f) => f,
+        Err(e) => {
+            let cr = type_defs.split('\n').any(|l| l.trim_start().starts_with("///") && l.trim_end_matches('\r').contains('\r'));
+            let unescaped = pc
+                .method_labels
+                .iter()
+                .any(|m| m.chars().any(|c| c == '"' || c == '\\' || c == '\r') && type_defs.contains(&format!("\"{m}\" :")));
+            let class: String = if unescaped {
+                "define_service-method-name-not-escaped".to_string()
+            } else if cr {
+                "bare-CR-in-doc-comment".to_string()
+            } else {
+                e.split(" at line").next().unwrap_or("").chars().filter(|c| !c.is_ascii_digit()).take(60).collect()
+            };
+            let sig = match class.as_str() {
+                "bare-CR-in-doc-comment" => "rust|bare-CR-in-doc-comment".to_string(),
+                "define_service-method-name-not-escaped" => "rust|define_service-method-name-not-escaped".to_string(),
+                c => format!("rust|does-not-parse|{c}"),
+            };
+            ctx.violation(
+                &sig,
+                &format!("syn cannot parse the emitted type definitions: {e}"),
+                input(),
+            );
+            return true;
+        }
+    };
+    let mut found = false;
+    let di = facts.duplicate_items();
+    if !di.is_empty() {
+        found = true;
+        let d = &di[0];
+        let sources = pc.def_names.iter().filter(|n| norm(n) == norm(d)).count();
+        let class = match sources {
+            0 => "generated-vs-generated",
+            1 => "definition-vs-generated",
+            _ => "definition-vs-definition",
+        };
+        ctx.violation(
+            &format!("rust|item-name-collision|{class}"),
+            &format!("the emitted Rust defines {di:?} more than once: distinct source types collapse into one Rust item name"),
+            input(),
+        );
+    }
+    let df = facts.duplicate_fields();
+    if !df.is_empty() {
+        found = true;
+        ctx.violation(
+            "rust|field-name-collision",
+            &format!("fields with the same Rust name after case conversion: {df:?}"),
+            input(),
+        );
+    }
+    let dv = facts.duplicate_variants();
+    if !dv.is_empty() {
+        found = true;
+        ctx.violation(
+            "rust|variant-name-collision",
+            &format!("enum variants with the same Rust name after case conversion: {dv:?}"),
+            input(),
+        );
+    }
+    found
+}
+
+/// Two probed items of one module that are given the same Rust type expression but have different source
+/// types: at least one of them is wrong, no compiler needed. Returns the labels of all items involved.
+fn same_rust_type_check(
+    ctx: &mut Ctx,
+    pc: &ProgramCase,
+    which: &str,
+    type_defs: &str,
+    items: &[(String, String)],
+    ex: &[Expect],
+    colliding_def_types: &BTreeSet<String>,
+) -> BTreeSet<String> {
+    let mut involved = BTreeSet::new();
+    let mut reported: BTreeSet<&str> = BTreeSet::new();
+    for (i, (la, ta)) in items.iter().enumerate() {
+        for (lb, tb) in items.iter().skip(i + 1) {
+            if ta != tb {
+                continue;
+            }
+            let (Some(ea), Some(eb)) = (ex.iter().find(|e| &e.label == la), ex.iter().find(|e| &e.label == lb)) else {
+                continue;
+            };
+            if crate::model::subtype::requal(&pc.model_env, &ea.expected, &eb.expected) {
+                continue;
+            }
+            involved.insert(la.clone());
+            involved.insert(lb.clone());
+            let place = if la.starts_with("init:") && lb.starts_with("init:") {
+                "init-arguments"
+            } else if la.starts_with("def:") || lb.starts_with("def:") || colliding_def_types.contains(ta) {
+                // (incl. method types that are plain references to the two definitions of a colliding pair)
+                "definitions"
+            } else {
+                "method-types"
+            };
+            if reported.insert(place) {
+                ctx.violation(
+                    &format!("rust|distinct-source-types-share-one-rust-type|{place}"),
+                    &format!(
+                        "{} and {} are different Candid types ({} vs {}) but the binding uses the Rust type `{ta}` for both",
+                        ea.what, eb.what, ea.expected, eb.expected
+                    ),
+                    json!({"origin": pc.origin, "did": clip(&pc.text, 6000), "rust": clip(type_defs, 6000), "variant": which}),
+                );
+            }
+        }
+    }
+    involved
+}
+
+fn prepare(ctx: &mut Ctx, pc: ProgramCase, next_module: &mut usize) -> Option<Pending> {
+    let ck = match check_case(&pc) {
+        Ok(c) => c,
+        Err(m) => {
+            ctx.count(&format!("excluded:not-accepted:{}", reject_class(&m)));
+            return None;
+        }
+    };
+    let input = || json!({"origin": pc.origin, "did": clip(&pc.text, 6000)});
+    let cfg = rust_config();
+    // (B) synthetic service: one method per definition
+    let names: Vec<String> = ck.env.0.keys().cloned().collect();
+    let meths: Vec<(String, Type)> = names
+        .iter()
+        .enumerate()
+        .map(|(i, n)| {
+            let v: Type = TypeInner::Var(n.clone()).into();
+            (
+                format!("vrf_m_{i:04}"),
+                TypeInner::Func(Function {
+                    modes: vec![],
+                    args: vec![v.clone()],
+                    rets: vec![v],
+                })
+                .into(),
+            )
+        })
+        .collect();
+    let actor_b: Option<Type> = Some(TypeInner::Service(meths).into());
+    let out_b = match catch(|| rust::emit_bindgen(&cfg, &ck.env, &actor_b, &ck.prog).0) {
+        Ok(o) => o,
+        Err(p) => {
+            ctx.violation(
+                &format!("rust|panic|{}", p.sig()),
+                &format!("emit_bindgen panicked (synthetic service over all definitions): {}", p.message),
+                input(),
+            );
+            return None;
+        }
+    };
+    let mut rust_of: BTreeMap<String, String> = BTreeMap::new();
+    for m in &out_b.methods {
+        if let Some(i) = m.original_name.strip_prefix("vrf_m_").and_then(|s| s.parse::<usize>().ok()) {
+            if let (Some(n), Some(a)) = (names.get(i), m.args.first()) {
+                rust_of.insert(n.clone(), a.1.clone());
+            }
+        }
+    }
+    let out_a = if ck.actor.is_some() {
+        match catch(|| rust::emit_bindgen(&cfg, &ck.env, &ck.actor, &ck.prog).0) {
+            Ok(o) => Some(o),
+            Err(p) => {
+                ctx.violation(
+                    &format!("rust|panic|{}", p.sig()),
+                    &format!("emit_bindgen panicked: {}", p.message),
+                    input(),
+                );
+                None
+            }
+        }
+    } else {
+        None
+    };
+    // Rust type names given to more than one definition
+    let mut colliding: BTreeSet<String> = BTreeSet::new();
+    {
+        let mut seen: BTreeSet<&String> = BTreeSet::new();
+        for t in rust_of.values() {
+            if !seen.insert(t) {
+                colliding.insert(t.clone());
+            }
+        }
+    }
+    let reach = reachable_defs(&pc);
+    let mut need_b = out_a.is_none() || reach.len() < pc.def_names.len();
+    let mut pending = Pending {
+        case: ctx.case,
+        pc: pc.clone(),
+        modules: BTreeMap::new(),
+        items: BTreeMap::new(),
+        shared: BTreeSet::new(),
+        expects: Vec::new(),
+    };
+    let def_expects = |module: usize, only: Option<&BTreeSet<usize>>, out: &mut Vec<Expect>| {
+        for (i, n) in pc.def_names.iter().enumerate() {
+            if only.map(|s| !s.contains(&i)).unwrap_or(false) {
+                continue;
+            }
+            if rust_of.contains_key(n) {
+                out.push(Expect {
+                    module,
+                    label: format!("def:{i}"),
+                    what: format!("definition `{n}`"),
+                    expected: RType::Ref(i),
+                });
+            }
+        }
+    };
+    let mut items_of: BTreeMap<usize, Vec<(String, String)>> = BTreeMap::new();
+    if let Some(a) = &out_a {
+        let k = *next_module;
+        *next_module += 1;
+        let explained = cheap_checks(ctx, &pc, "program as is", &a.type_defs);
+        pending.modules.insert(k, ("A", a.type_defs.clone(), explained));
+        let mut ex = Vec::new();
+        def_expects(k, Some(&reach), &mut ex);
+        // a definition the model reaches from the service but that is not emitted for it (a consequence of
+        // generated names collapsing, which is reported on its own) is probed in module B instead
+        if let Ok(f) = analyze_rust(&format!("use candid::{{self, CandidType, Deserialize, Principal}};\n{}", a.type_defs)) {
+            let before = ex.len();
+            ex.retain(|e| {
+                let i: usize = e.label[4..].parse().unwrap();
+                let t = &rust_of[&pc.def_names[i]];
+                !is_ident(t.trim_start_matches("r#")) || f.items.iter().any(|it| it == t)
+            });
+            if ex.len() < before {
+                need_b = true;
+                ctx.count("cover:definition-not-emitted-for-the-actor");
+            }
+        }
+        let mut items: Vec<(String, String)> = ex
+            .iter()
+            .map(|e| {
+                let i: usize = e.label[4..].parse().unwrap();
+                (e.label.clone(), rust_of[&pc.def_names[i]].clone())
+            })
+            .collect();
+        // methods
+        let model_methods: BTreeMap<String, RType> = pc.methods().unwrap_or_default().into_iter().collect();
+        for (mi, m) in a.methods.iter().enumerate() {
+            let Some(RType::Func { args, rets, .. }) = model_methods.get(&m.original_name) else {
+                ctx.violation(
+                    "rust|method-not-in-program",
+                    &format!("emit_bindgen lists a method {:?} the program does not have", m.original_name),
+                    input(),
+                );
+                continue;
+            };
+            if args.len() != m.args.len() || rets.len() != m.rets.len() {
+                ctx.violation(
+                    "rust|method-arity",
+                    &format!(
+                        "method {:?}: program has {}->{} types, binding lists {}->{}",
+                        m.original_name,
+                        args.len(),
+                        rets.len(),
+                        m.args.len(),
+                        m.rets.len()
+                    ),
+                    input(),
+                );
+                continue;
+            }
+            for (j, (a, t)) in m.args.iter().zip(args.iter()).enumerate() {
+                let label = format!("m:{mi}:arg{j}");
+                items.push((label.clone(), a.1.clone()));
+                ex.push(Expect {
+                    module: k,
+                    label,
+                    what: format!("argument {j} of method {:?}", m.original_name),
+                    expected: t.clone(),
+                });
+            }
+            for (j, (r, t)) in m.rets.iter().zip(rets.iter()).enumerate() {
+                let label = format!("m:{mi}:ret{j}");
+                items.push((label.clone(), r.clone()));
+                ex.push(Expect {
+                    module: k,
+                    label,
+                    what: format!("result {j} of method {:?}", m.original_name),
+                    expected: t.clone(),
+                });
+            }
+        }
+        if a.methods.len() != model_methods.len() {
+            ctx.violation(
+                "rust|method-count",
+                &format!("the service has {} methods, emit_bindgen lists {}", model_methods.len(), a.methods.len()),
+                input(),
+            );
+        }
+        if let (Some(ia), Some(im)) = (&a.init_args, &pc.init) {
+            if ia.len() == im.len() {
+                for (j, (x, t)) in ia.iter().zip(im.iter()).enumerate() {
+                    let label = format!("init:{j}");
+                    items.push((label.clone(), x.1.clone()));
+                    ex.push(Expect {
+                        module: k,
+                        label,
+                        what: format!("init argument {j}"),
+                        expected: t.clone(),
+                    });
+                }
+            } else {
+                ctx.violation("rust|init-arity", "number of init arguments differs", input());
+            }
+        }
+        for l in same_rust_type_check(ctx, &pc, "program as is", &a.type_defs, &items, &ex, &colliding) {
+            pending.shared.insert((k, l));
+        }
+        items_of.insert(k, items);
+        pending.expects.extend(ex);
+    }
+    if need_b {
+        let k = *next_module;
+        *next_module += 1;
+        let explained = cheap_checks(ctx, &pc, "synthetic service over all definitions", &out_b.type_defs);
+        pending.modules.insert(k, ("B", out_b.type_defs.clone(), explained));
+        let mut ex = Vec::new();
+        def_expects(k, None, &mut ex);
+        let items: Vec<(String, String)> = ex
+            .iter()
+            .map(|e| {
+                let i: usize = e.label[4..].parse().unwrap();
+                (e.label.clone(), rust_of[&pc.def_names[i]].clone())
+            })
+            .collect();
+        for l in same_rust_type_check(ctx, &pc, "synthetic service over all definitions", &out_b.type_defs, &items, &ex, &colliding) {
+            pending.shared.insert((k, l));
+        }
+        items_of.insert(k, items);
+        pending.expects.extend(ex);
+        ctx.count("cover:module-B");
+    }
+    if out_a.is_some() {
+        ctx.count("cover:module-A");
+    }
+    pending.items = items_of;
+    for t in &pc.tags {
+        ctx.count(&format!("cover:{t}"));
+    }
+    Some(pending)
+}
+
+fn flush(ctx: &mut Ctx, pipe: &RsPipeline, pend: &mut Vec<Pending>, max_confirm: usize) -> f64 {
+    if pend.is_empty() {
+        return 0.0;
+    }
+    let batch = std::mem::take(pend);
+    let mut mods: Vec<RsModule> = Vec::new();
+    for p in &batch {
+        for (k, (_, defs, _)) in &p.modules {
+            mods.push(RsModule {
+                k: *k,
+                type_defs: defs.clone(),
+                items: p.items.get(k).cloned().unwrap_or_default(),
+            });
+        }
+    }
+    let current = ctx.case;
+    let res = match pipe.process(&mods, max_confirm) {
+        Ok(r) => r,
+        Err(e) => {
+            ctx.count("inconclusive:cargo-pipeline-failed");
+            eprintln!("C18 pipeline failed: {e}");
+            return 0.0;
+        }
+    };
+    ctx.count_n("cargo-builds", res.builds as u64);
+    ctx.count_n("modules-compiled", (mods.len() - res.failed.len()) as u64);
+    ctx.max("batch-seconds", res.build_seconds);
+    for p in &batch {
+        ctx.case = p.case;
+        let pc = &p.pc;
+        let mut judged = 0;
+        for (k, (which, defs, explained)) in &p.modules {
+            let input = || json!({"origin": pc.origin, "did": clip(&pc.text, 6000), "rust": clip(defs, 6000), "variant": which});
+            if let Some(errs) = res.confirmed.get(k) {
+                let all = if errs.is_empty() { res.failed.get(k).cloned().unwrap_or_default() } else { errs.clone() };
+                if *explained {
+                    ctx.count("compile-error-explained-by-reported-name-collision");
+                } else if let Some(e) = all.first() {
+                    let facts = analyze_rust(&format!("use candid::{{self, CandidType, Deserialize, Principal}};\n{defs}")).ok();
+                    let shadow = facts
+                        .as_ref()
+                        .map(|f| f.items.iter().any(|i| SHADOWABLE.contains(&i.as_str())))
+                        .unwrap_or(false);
+                    let unescaped = pc.method_labels.iter().any(|m| needs_rust_escape(m) && defs.contains(&format!("\"{m}\" :")));
+                    let sig = if unescaped {
+                        "rust|define_service-method-name-not-escaped".to_string()
+                    } else if shadow {
+                        "rust|does-not-compile|definition-shadows-name-used-by-the-binding".to_string()
+                    } else {
+                        format!("rust|does-not-compile|{}", e.class())
+                    };
+                    ctx.violation(
+                        &sig,
+                        &format!("the emitted type definitions do not compile (confirmed alone): {}", clip(&e.rendered, 1200)),
+                        input(),
+                    );
+                }
+                ctx.count("outcome:does-not-compile");
+            } else if res.failed.contains_key(k) {
+                if res.not_reproduced.contains(k) {
+                    ctx.count("inconclusive:compile-error-not-reproduced-alone");
+                } else {
+                    ctx.count("unconfirmed-compile-error");
+                }
+            } else {
+                ctx.count("outcome:compiles");
+            }
+        }
+        // first pass: classify every difference; a difference without a recognised root cause is reported under
+        // its generic shape class only when nothing in this program has a recognised cause (overlapping
+        // defects produce shapes that vary from program to program and would make signatures unstable)
+        let mut found: Vec<(usize, String, String)> = Vec::new(); // (index into expects, class, path)
+        for (ei, e) in p.expects.iter().enumerate() {
+            let Some(r) = res.graphs.get(&(e.module, e.label.clone())) else { continue };
+            let which = p.modules.get(&e.module).map(|m| m.0).unwrap_or("?");
+            let defs = p.modules.get(&e.module).map(|m| m.1.as_str()).unwrap_or("");
+            let input = || json!({"origin": pc.origin, "did": clip(&pc.text, 6000), "rust": clip(defs, 6000), "variant": which, "item": e.what});
+            match r {
+                Err(m) => ctx.violation(
+                    &format!("rust|probe-error|{m}"),
+                    &format!("computing the Candid type of the Rust type for {} failed: {m}", e.what),
+                    input(),
+                ),
+                Ok(g) => {
+                    judged += 1;
+                    if g.roots.len() == 1 && requal2(&pc.model_env, &e.expected, &g.env, &g.roots[0]) {
+                        ctx.count("agree:type");
+                        continue;
+                    }
+                    ctx.count("outcome:type-differs");
+                    if p.shared.contains(&(e.module, e.label.clone())) {
+                        // already reported without compiling (same Rust type for different source types)
+                        ctx.count("type-differs-explained-by-shared-rust-type");
+                        continue;
+                    }
+                    let ds = g
+                        .roots
+                        .first()
+                        .map(|r| diff_all_types(&pc.model_env, &e.expected, &g.env, r, 12))
+                        .unwrap_or_default();
+                    if ds.is_empty() {
+                        found.push((ei, "unclassified".to_string(), String::new()));
+                    }
+                    for d in &ds {
+                        found.push((ei, classify(pc, &e.label, g, d), d.path.clone()));
+                    }
+                }
+            }
+        }
+        let generic = |c: &str| c.starts_with("definition|") || c.starts_with("method-type|") || c == "unclassified";
+        let any_recognised =
+            !p.shared.is_empty() || p.modules.values().any(|m| m.2) || found.iter().any(|f| !generic(&f.1));
+        let mut sigs: BTreeSet<String> = BTreeSet::new();
+        for (ei, c, path) in &found {
+            let e = &p.expects[*ei];
+            if generic(c) && any_recognised {
+                ctx.count("type-differs-unclassified-in-program-with-recognised-defect");
+                continue;
+            }
+            if !sigs.insert(c.clone()) {
+                continue;
+            }
+            let which = p.modules.get(&e.module).map(|m| m.0).unwrap_or("?");
+            let defs = p.modules.get(&e.module).map(|m| m.1.as_str()).unwrap_or("");
+            ctx.violation(
+                &(if c == "define_service-method-name-not-escaped" {
+                    "rust|define_service-method-name-not-escaped".to_string()
+                } else {
+                    format!("rust|type-differs|{c}")
+                }),
+                &format!(
+                    "the Candid type of the Rust type emitted for {} differs from the source at {}; expected {} in env {}",
+                    e.what, path, e.expected, pc.model_env
+                ),
+                json!({"origin": pc.origin, "did": clip(&pc.text, 6000), "rust": clip(defs, 6000), "variant": which, "item": e.what}),
+            );
+        }
+        if judged > 0 {
+            ctx.nontrivial(hash_str(&pc.text));
+        }
+        ctx.sample(|| json!({"origin": pc.origin, "did": clip(&pc.text, 1500)}));
+    }
+    ctx.case = current;
+    res.build_seconds
+}
+
+pub fn run(ctx: &mut Ctx) {
+    let pipe = RsPipeline::new(&format!("{}{}", ctx.lane, ctx.shard));
+    if std::env::var("VERIF_C18_PREBUILD").is_ok() {
+        match pipe.prebuild() {
+            Ok(s) => {
+                ctx.count("prebuild:ok");
+                ctx.max("prebuild-seconds", s);
+            }
+            Err(e) => {
+                ctx.count("inconclusive:prebuild-failed");
+                eprintln!("C18 prebuild failed: {e}");
+            }
+        }
+        return;
+    }
+    let only = ctx.only.is_some();
+    let mut pend: Vec<Pending> = Vec::new();
+    let mut next_module = 0usize;
+    let mut est = 0.0f64;
+    let started = Instant::now();
+
+    // round 0: the repository's assets
+    let assets: Vec<ProgramCase> = asset_cases();
+    if !assets.is_empty() {
+        let saved = ctx.max_cases;
+        let n = assets.len() as u64;
+        ctx.max_cases = (n + ctx.nshards - 1) / ctx.nshards.max(1);
+        ctx.cases("assets", 1.0, |ctx, _rng| {
+            let local = ctx.case & ((1 << 40) - 1);
+            if let Some(pc) = assets.get(local as usize) {
+                if let Some(p) = prepare(ctx, pc.clone(), &mut next_module) {
+                    pend.push(p);
+                }
+            }
+        });
+        ctx.max_cases = saved;
+    }
+    let cfgs: [(GenCfg, u64); 4] = [
+        // no keyword names, no names colliding after case conversion, no numeric ids, no one-element tuples:
+        // the shapes for which the binding is expected to be right, so that deeper problems are not masked
+        (
+            GenCfg {
+                labels: NameMode::Clean,
+                defs: NameMode::Clean,
+                docs: DocMode::Benign,
+                max_depth: 4,
+                numeric_ids: false,
+                one_tuples: false,
+                ..GenCfg::default()
+            },
+            5,
+        ),
+        (
+            GenCfg {
+                labels: NameMode::Plain,
+                defs: NameMode::Plain,
+                docs: DocMode::Benign,
+                max_depth: 4,
+                ..GenCfg::default()
+            },
+            2,
+        ),
+        (GenCfg::default(), 2),
+        (
+            GenCfg {
+                labels: NameMode::Hostile,
+                defs: NameMode::Keywords,
+                docs: DocMode::Benign,
+                ..GenCfg::default()
+            },
+            1,
+        ),
+    ];
+    let per_round: u64 = if only {
+        u64::MAX >> 8
+    } else if ctx.thorough() {
+        60
+    } else {
+        24
+    };
+    let max_rounds = if only { 256 } else { 10_000 };
+    for r in 0..max_rounds {
+        if !only {
+            let left = ctx.deadline.saturating_duration_since(Instant::now()).as_secs_f64();
+            if r > 0 && left < est * 1.3 + 5.0 {
+                break;
+            }
+        }
+        let saved = ctx.max_cases;
+        ctx.max_cases = per_round;
+        ctx.cases(&format!("adhoc-r{r}"), 1.0, |ctx, rng| {
+            let pick = rng.below(10);
+            let mut acc = 0;
+            let mut cfg = &cfgs[0].0;
+            for (c, w) in cfgs.iter() {
+                acc += w;
+                if pick < acc {
+                    cfg = c;
+                    break;
+                }
+            }
+            let pc = if rng.chance(1, 2) {
+                gen_case(rng, cfg, "adhoc:c18")
+            } else {
+                // the shared generator; two thirds with the name classes that are known to break the binding off
+                let tame = rng.chance(2, 3);
+                let tweak = |c: &mut crate::prog::ProgCfg| {
+                    if tame {
+                        c.keyword_names = false;
+                        c.hostile_names = false;
+                        c.case_collisions = false;
+                    }
+                    c.max_defs = c.max_defs.min(6);
+                };
+                match gen_prog_case(rng, &tweak, if tame { "prog:c18-tame" } else { "prog:c18" }) {
+                    Some(pc) => pc,
+                    None => {
+                        ctx.count("excluded:prog-model-failed");
+                        return;
+                    }
+                }
+            };
+            if let Some(p) = prepare(ctx, pc, &mut next_module) {
+                pend.push(p);
+            }
+        });
+        ctx.max_cases = saved;
+        if !only {
+            let s = flush(ctx, &pipe, &mut pend, if ctx.thorough() { 6 } else { 3 });
+            est = if est == 0.0 { s } else { est.max(s) * 0.5 + s * 0.5 };
+            ctx.count("rounds");
+        }
+    }
+    if only {
+        flush(ctx, &pipe, &mut pend, 4);
+    }
+    ctx.max("total-seconds", started.elapsed().as_secs_f64());
+    pipe.cleanup();
+}
